@@ -300,7 +300,10 @@ fn show_png_req(cfg: &str, d: &Desc, mutl: &str, png: &[u8]) -> String {
 // ---------------------------------------------------------------------------------------------
 
 fn classify(msg: &str) -> &'static str {
-    const T: [(&str, &str); 22] = [
+    const T: [(&str, &str); 25] = [
+        ("Invalid PNG bit depth", "depth"),
+        ("Palette PNG missing PLTE chunk", "noplte"),
+        ("PNG palette index", "palindex"),
         ("Invalid PNG signature", "signature"),
         ("Unexpected end of PNG data", "eof"),
         ("Invalid chunk length", "chunklen"),
